@@ -492,7 +492,7 @@ def _content_worker(job):
             for k, d in check_case(case):
                 s.fail(k, case, d)
 
-        H.hyp_run(strat, body, n, H.derive_seed(seed, name))
+        H.hyp_run(strat, body, n, H.derive_seed(seed, name), stats=s)
     return s
 
 
@@ -526,7 +526,7 @@ def _random_worker(job):
             for k, d in check_random(case):
                 s.fail(k, case, d)
 
-        H.hyp_run(strat, body, n, H.derive_seed(seed, name, "rnd"))
+        H.hyp_run(strat, body, n, H.derive_seed(seed, name, "rnd"), stats=s)
     return s
 
 
